@@ -15,7 +15,6 @@ fn main() {
     let mut run = Run::from_args("C19", "c19t");
     vcore::core_configs!(cfg, &mut run);
     if run.tier == Tier::Quick {
-        cfg!(&mut run, d8, 17, BigRef);
         cfg!(&mut run, d64, 17, BigRef);
     } else {
         cfg!(&mut run, d64, 17, BigRef);
